@@ -317,7 +317,8 @@ def c11(tier, seed, replay=None):
                 d["intcot"] = (i + seed) % 5 == 2
                 out.append(d)
         return out
-    models = [dict(N=4, MaxAr=2, KindMode="edge")] if quick else [dict(N=4, MaxAr=3, KindMode="edge"), dict(N=5, MaxAr=2, KindMode="node")]
+    models = [dict(N=4, MaxAr=2, KindMode="edge")] if quick else [dict(N=4, MaxAr=2, KindMode="edge"), dict(N=4, MaxAr=3, KindMode="node"),
+                                                                   dict(N=5, MaxAr=2, KindMode="node")]
     mutants = [("MutAddNoneAliases", dict(N=3, MaxAr=2, KindMode="node"))]
     sets = [dict(N=3, Family="star"), dict(N=2, Family="star")] if quick else [dict(N=4, Family="star"), dict(N=3, Family="star"),
                                                                            dict(N=2, Family="star")]
